@@ -304,6 +304,43 @@ Definition t_delete_column_pinned (x : Z) (t : tstate) : option tstate :=
                                       match row_delete_cell x (snd r) with Some c' => (fst r, c') | None => r end else r) (rows t) |}
        end.
 
+(* pinned Row.set_cell / Table.set_cell / insert_cell and the pinned step (the other operations are unchanged) *)
+Definition row_set_cell_pinned (x : Z) (c : nat * cell) (v : rruns) : option rruns :=
+  let diff := x - rwidth v in
+  if diff =? 0 then Some (v ++ [c])
+  else if 0 <? diff then Some (v ++ [(Z.to_nat diff, empty_cell); c])
+  else set_item_pinned 0 x c v (cmap v).
+Definition set_cell_pinned (x y : Z) (c : nat * cell) (t : tstate) : option tstate :=
+  if theight t <=? y then
+    match row_set_cell_pinned x c [] with Some cs => set_row_pinned y 1 (0, cs) t | None => None end
+  else match row_at y t with
+    | None => None
+    | Some (rep, (st, cs)) =>
+      match row_set_cell_pinned x c cs with Some cs' => set_row_pinned y 1 (st, cs') t | None => None end
+    end.
+Definition t_insert_cell_pinned (x y : Z) (c : nat * cell) (t : tstate) : option tstate :=
+  match base_row y t with
+  | None => None
+  | Some (st, cs) => match row_insert_cell x c cs with Some cs' => set_row_pinned y 1 (st, cs') t | None => None end
+  end.
+Definition t_set_column_pinned (x : Z) (rep : nat) (st : Z) (t : tstate) : option tstate :=
+  let diff := x - twidth t in
+  if diff =? 0 then Some (t_append_column rep st t)
+  else if 0 <? diff then Some (t_append_column rep st (t_append_column (Z.to_nat diff) 0 t))
+  else match set_item_pinned 0 x (rep, st) (cols t) (cmap (cols t)) with
+       | Some cs => Some {| cols := cs; rows := rows t |} | None => None end.
+Definition t_step_pinned (t : tstate) (o : top) : option tstate :=
+  match o with
+  | OSetRow y rep r => set_row_pinned (ny y t) rep r t
+  | OSetCell x y c => set_cell_pinned (nx x t) (ny y t) c t
+  | OInsertCell x y c => t_insert_cell_pinned (nx x t) (ny y t) c t
+  | OAppendCell y c => t_append_cell_pinned (ny y t) c t
+  | ODeleteCell x y => t_delete_cell_pinned (nx x t) (ny y t) t
+  | ODeleteColumn x => t_delete_column_pinned (nx x t) t
+  | OSetColumn x rep st => t_set_column_pinned (nx x t) rep st t
+  | _ => t_step t o
+  end.
+
 (* ---- equalities and views for the correspondence ---- *)
 Definition colrun_eqb (a b : list (nat * Z)) := list_eqb (run_eqb Z.eqb) a b.
 Definition rowx_eqb (a b : rowx) := (fst a =? fst b) && runs_eqb (snd a) (snd b).
